@@ -29,7 +29,7 @@ UNITS_H = ['<a', '</a>', '<a>', '<br>', '/>', '>', '<', ' b="', " c='", ' d={', 
            '<script>', '</script>', '<style>', '<!--', '-->', '<![CDATA[', ']]>', '<?', '?>', ' ', '/']
 
 # math
-TOKENS_E = ['1', '2', '0', '.5', '1.5', '+', '-', '*', '/', '\\', '(', ')', ' ']
+TOKENS_E = ['1', '2', '0', '.5', '1.5', '+', '-', '*', '/', '\\', '(', ')', ' ', '()', '(1)', '(2+1)']
 SIGMA_E = ['1', '.', '+', '-', '*', '/', '\\', '(', ')', ' ', 'a']
 SIGMA_EX = ['1', '.', '+', '-', '(', ')', ' ', 'a']
 
